@@ -46,6 +46,7 @@ def run_ghe(c):
     corr = G.borehole_radius_correction(glts, rbv, g.bhe.b.r_b)
     return {"ok": True, "x": [float(v) for v in gf.x], "y": [float(v) for v in gf.y], "ybhw": [float(v) for v in gb.y],
             "lts_t": [float(v) for v in G.log_time], "lts_corr": [float(v) for v in corr],
+            "lts_raw": [float(v) for v in glts], "rb_table": float(rbv), "rb_sim": float(g.bhe.b.r_b),
             "sts_t": [float(v) for v in g.radial_numerical.lntts], "sts_g": [float(v) for v in g.radial_numerical.g],
             "stored_heights": [float(h) for h in G.g_lts.keys()]}
 
